@@ -9,6 +9,7 @@ mod codec;
 mod logfile;
 mod meta;
 mod node;
+mod registry;
 mod sm;
 mod smreplay;
 mod store;
@@ -30,6 +31,7 @@ fn main() {
         ("replay", "sm") => smreplay::replay(&args[3..]),
         ("record", "sm") => smreplay::record(&args[3..]),
         ("replay", "cfgcenter") => cfgcenter::replay(&args[3..]),
+        ("replay", "registry") => registry::replay(&args[3..]),
         ("replay", "meta") => meta::replay(&args[3..]),
         ("node", "run") => node::main_node(&args[3..]),
         _ => Err(anyhow::anyhow!("unknown command {} {}", args[1], args[2])),
